@@ -3,6 +3,7 @@ package ilv
 import (
 	"context"
 	"fmt"
+	"sort"
 	"strings"
 	"time"
 
@@ -144,8 +145,8 @@ func c05Schema(name string, kind int, m int32, strat int) (proxyv1alpha1.FlowCon
 // max-in-flight limiter of one cluster, with a bystander schema and cluster.
 func RunC05(r *sim.Run) {
 	t := r.T
-	M := int32(t.Range(1, 4))
-	nReq := t.Range(2, 4)
+	M := int32([]int{1, 1, 1, 2, 2, 2, 3, 4}[t.Draw(8)])
+	nReq := t.Range(2, 5)
 	style := t.Draw(2)
 	rounds := t.Draw(10) < 6
 	hasCfg := !strings.Contains(r.Profile, "static")
@@ -180,20 +181,38 @@ func RunC05(r *sim.Run) {
 	var progs []prog
 	for k := 0; k < nReq; k++ {
 		p := prog{name: fmt.Sprintf("req%d", k)}
-		n := t.Range(1, 3)
+		n := t.Range(1, 4)
 		for j := 0; j < n; j++ {
-			p.ops = append(p.ops, c05Op{Kind: "acquire", Thread: k}, c05Op{Kind: "release", Thread: k})
+			// requests arrive and finish at their own pace: idle steps before a
+			// request and while it is being served (not part of the history)
+			for i := t.Draw(3); i > 0; i-- {
+				p.ops = append(p.ops, c05Op{Kind: "idle", Thread: k})
+			}
+			p.ops = append(p.ops, c05Op{Kind: "acquire", Thread: k})
+			for i := t.Draw(4); i > 0; i-- {
+				p.ops = append(p.ops, c05Op{Kind: "idle", Thread: k})
+			}
+			p.ops = append(p.ops, c05Op{Kind: "release", Thread: k})
 		}
 		progs = append(progs, p)
 	}
 	if hasCfg {
 		p := prog{name: "cfg"}
-		n := t.Range(1, 4)
+		n := t.Range(1, 6)
+		plan := curKind
 		for j := 0; j < n; j++ {
+			// reconfigurations arrive while traffic flows, not only before it
+			for i := t.Draw(3); i > 0; i-- {
+				p.ops = append(p.ops, c05Op{Kind: "idle"})
+			}
 			op := c05Op{Kind: "sync"}
-			switch t.Pick([]int{5, 2, 1, 2}) {
+			w := []int{5, 2, 1, 2}
+			if plan != kMIF {
+				w = []int{12, 1, 1, 1} // mostly: the schema is (re)created as a max-in-flight schema
+			}
+			switch t.Pick(w) {
 			case 0:
-				op.SKind, op.M = kMIF, int32(t.Range(0, 4))
+				op.SKind, op.M = kMIF, int32([]int{0, 1, 1, 1, 2, 2, 3, 4}[t.Draw(8)])
 				if t.Draw(3) == 0 {
 					// the same limit under another strategy (not a type change: the count goes on)
 					op.M = curM
@@ -206,6 +225,7 @@ func RunC05(r *sim.Run) {
 			case 3:
 				op.SKind = kAbsent
 			}
+			plan = op.SKind
 			p.ops = append(p.ops, op)
 		}
 		progs = append(progs, p)
@@ -214,6 +234,7 @@ func RunC05(r *sim.Run) {
 	byOps := t.Range(1, 3)
 
 	sc := sim.NewSched(r)
+	sc.PCTSpan = 400
 	sc.Install()
 	defer sc.Uninstall()
 
@@ -221,12 +242,18 @@ func RunC05(r *sim.Run) {
 	var hist []porcupine.Operation
 	admitted, refused, typeChanges := 0, 0, 0
 
+	// a reconfiguration is many more statements long than a request's acquire or
+	// release: the configuring thread runs at a drawn multiple of their pace
+	cfgWeight := []int{1, 4, 16, 48}[t.Draw(4)]
 	for pi, p := range progs {
 		pi, p := pi, p
-		sc.Go(p.name, func() {
+		th := sc.Go(p.name, func() {
 			var held flowcontrol.FlowControl
 			for _, op := range p.ops {
 				sc.Boundary()
+				if op.Kind == "idle" {
+					continue
+				}
 				stamp++
 				call := stamp
 				var out interface{}
@@ -277,6 +304,13 @@ func RunC05(r *sim.Run) {
 				r.Logf("%s %v -> %v", p.name, op, out)
 			}
 		})
+		if p.name == "cfg" {
+			th.Weight = cfgWeight
+			if t.Draw(2) == 0 {
+				// ... and is descheduled once at an arbitrary statement
+				th.StallAt, th.StallFor = 1+t.Draw(150*len(p.ops)), 20+t.Draw(120)
+			}
+		}
 	}
 	byFail := ""
 	sc.Go("bystander", func() {
@@ -300,9 +334,9 @@ func RunC05(r *sim.Run) {
 
 	var why string
 	if rounds {
-		why = sc.RunRounds(1200, style, nil)
+		why = sc.RunRounds(3000, style, nil)
 	} else {
-		why = sc.RunAll(1200, style, nil)
+		why = sc.RunAll(3000, style, nil)
 	}
 	for _, th := range sc.Threads() {
 		if th.Panic != nil {
@@ -357,6 +391,57 @@ func RunC05(r *sim.Run) {
 		r.Inconclusive("porcupine timeout")
 	}
 	ov := overlaps(hist)
+	// reach: a request that was admitted while its schema was being created as a
+	// max-in-flight schema, and that finished while a later admission was in flight
+	{
+		prev := initKind
+		type span struct{ a, b int64 }
+		var creations []span
+		var syncs []porcupine.Operation
+		for _, h := range hist {
+			if h.Input.(c05Op).Kind == "sync" {
+				syncs = append(syncs, h)
+			}
+		}
+		sort.Slice(syncs, func(i, j int) bool { return syncs[i].Call < syncs[j].Call })
+		for _, h := range syncs {
+			k := h.Input.(c05Op).SKind
+			if k == kMIF && prev != kMIF {
+				creations = append(creations, span{h.Call, h.Return})
+			}
+			prev = k
+		}
+		relOf := map[int]int64{} // index of an admitted acquire -> call stamp of its release
+		for i, h := range hist {
+			if op := h.Input.(c05Op); op.Kind == "acquire" && h.Output == true {
+				for _, g := range hist {
+					if o2 := g.Input.(c05Op); o2.Kind == "release" && o2.Thread == op.Thread && g.Call > h.Return {
+						if cur, ok := relOf[i]; !ok || g.Call < cur {
+							relOf[i] = g.Call
+						}
+					}
+				}
+			}
+		}
+		during, chain := 0, 0
+		for i, h := range hist {
+			if _, ok := relOf[i]; !ok {
+				continue
+			}
+			for _, c := range creations {
+				if h.Call < c.b && h.Return > c.a {
+					during++
+					for j, g := range hist {
+						if rj, ok := relOf[j]; ok && j != i && g.Call > c.b && g.Return < relOf[i] && rj > relOf[i] {
+							chain++
+						}
+					}
+				}
+			}
+		}
+		r.ProbeN("admitted_while_the_schema_was_being_created", during)
+		r.ProbeN("such_a_request_released_while_a_later_admission_was_in_flight", chain)
+	}
 	r.ProbeN("overlapping_pairs", ov)
 	r.ProbeN("admitted", admitted)
 	r.ProbeN("refused", refused)
